@@ -17,7 +17,7 @@ var c20Bases = []int{120, 499, 500, 501, 900}
 
 // variants of the host page: a data table (which the converter leaves through a different path)
 // before the article, so that state kept across elements would show
-var c20Variants = []string{"", "table-first", "decoys"}
+var c20Variants = []string{"", "table-first", "decoys", "in-bold", "noscripting"}
 
 type c20Marker struct{ name, attr, val string }
 
@@ -93,6 +93,10 @@ func c20Doc(base int, subs []c20Sub, variant string) string {
 			inner = item("<p>"+t.W(26)+"</p>") + item("<p>"+t.W(27)+"</p>") + item("<p>"+t.W(28)+"</p>")
 		case "img":
 			inner = item("<img src=\"http://example.com/img/" + t.U() + ".jpg\" width=\"400\" height=\"300\">")
+			if variant == "noscripting" {
+				u := t.U()
+				inner = item("<figure><picture><source srcset=\"http://example.com/img/" + u + "-ph.webp 1x\"></picture><noscript><img src=\"http://example.com/img/" + u + "-real.jpg\" width=\"400\" height=\"300\"></noscript><figcaption>" + t.W(4) + "</figcaption></figure>")
+			}
 		}
 		return
 	}
@@ -128,6 +132,12 @@ func c20Doc(base int, subs []c20Sub, variant string) string {
 			}
 		}
 		sb.WriteString(" " + t.W(5) + "</p>")
+	}
+	if variant == "in-bold" {
+		// marked elements whose ancestors include <b>, <i> or <a> (tag names that are substrings of
+		// other tag names); class/id markers are pruned there like anywhere else
+		sb.WriteString("<p>" + t.W(12) + " <b>" + t.W(2) + " <span class=\"sidebar\">" + t.W(3) + "</span></b> " + t.W(4) + " <i><span id=\"footer\">" + t.W(2) + "</span> " + t.W(1) + "</i> " + t.W(6) + "</p>")
+		sb.WriteString("<div><b><div class=\"menu\"><p>" + t.W(26) + "</p></div></b></div>")
 	}
 	if variant == "table-first" {
 		sb.WriteString("<p>" + t.W(24) + "</p><table><tr><th>" + t.W(1) + "</th><th>" + t.W(1) + "</th></tr><tr><td>" + t.W(1) + "</td><td>" + t.W(1) + "</td></tr><tr><td>" + t.W(1) + "</td><td>" + t.W(1) + "</td></tr></table>")
@@ -197,6 +207,10 @@ func c20Enumerate(tier string, emit func(*eng.Case)) {
 		for i, s := range all {
 			emit(&eng.Case{Kind: "prune", P: map[string]string{"base": fmt.Sprint(b), "subs": enc([]c20Sub{s}), "doc": fmt.Sprintf("base=%d %s", b, desc([]c20Sub{s}))}})
 			emit(&eng.Case{Kind: "prune", P: map[string]string{"base": fmt.Sprint(b), "variant": "table-first", "subs": enc([]c20Sub{s}), "doc": fmt.Sprintf("base=%d table-first %s", b, desc([]c20Sub{s}))}})
+			if s.content <= 1 {
+				emit(&eng.Case{Kind: "prune", P: map[string]string{"base": fmt.Sprint(b), "variant": "in-bold", "subs": enc([]c20Sub{s}), "doc": fmt.Sprintf("base=%d in-bold %s", b, desc([]c20Sub{s}))}})
+				emit(&eng.Case{Kind: "prune", P: map[string]string{"base": fmt.Sprint(b), "variant": "noscripting", "subs": enc([]c20Sub{s}), "doc": fmt.Sprintf("base=%d noscripting %s", b, desc([]c20Sub{s}))}})
+			}
 			emit(&eng.Case{Kind: "prune", P: map[string]string{"base": fmt.Sprint(b), "variant": "decoys", "subs": enc([]c20Sub{s}), "doc": fmt.Sprintf("base=%d decoys %s", b, desc([]c20Sub{s}))}})
 			for _, s2 := range second {
 				if tier != "thorough" && b != 499 && b != 500 && b != 900 {
@@ -266,6 +280,12 @@ func c20Check(c *eng.Case) *eng.Outcome {
 	c.HTML = c20Doc(base, subs, c.Get("variant"))
 	run := func(edit func(doc *html.Node)) (*distiller.Result, bool) {
 		doc := ora.Parse(c.HTML)
+		if c.Get("variant") == "noscripting" {
+			// callers may hand Apply a tree parsed with scripting disabled (<noscript> holds elements)
+			if d2, err := html.ParseWithOptions(strings.NewReader(c.HTML), html.ParseOptionEnableScripting(false)); err == nil {
+				doc = d2
+			}
+		}
 		if edit != nil {
 			edit(doc)
 		}
@@ -347,7 +367,7 @@ func init() {
 	eng.Register(&eng.Prop{
 		ID:        "C20",
 		DesignRef: "§5 C20",
-		Rule: "base pages of 120/499/500/501/900 words in total (article + 30-word trailer paragraph) x marked subtrees: marker {class=sidebar, id=footer, class=menu, class='banner x', role=navigation, role=dialog, class=Social-links, id=related} on {div, section, ul, p} x content {link cluster, one paragraph, three paragraphs, image} x placement {before, between, after the article, inside it, wrapping it}; all singles on all bases, each also on a page that starts with a paragraph and a data table, and on a page with exempt anchors carrying the same marker values before and after the content; pairs with a second subtree from a reduced set on bases 499/500/900 (quick) / every third first subtree with every second subtree, all on base 500 (thorough). " +
+		Rule: "base pages of 120/499/500/501/900 words in total (article + 30-word trailer paragraph) x marked subtrees: marker {class=sidebar, id=footer, class=menu, class='banner x', role=navigation, role=dialog, class=Social-links, id=related} on {div, section, ul, p} x content {link cluster, one paragraph, three paragraphs, image} x placement {before, between, after the article, inside it, wrapping it}; all singles on all bases, each also on a page that starts with a paragraph and a data table, on a page with exempt anchors carrying the same marker values before and after the content, on a page with marked elements inside <b>/<i>, and (image content) as a lazy figure in a tree parsed with scripting disabled; pairs with a second subtree from a reduced set on bases 499/500/900 (quick) / every third first subtree with every second subtree, all on base 500 (thorough). " +
 			"Oracle (metamorphic, 3 executions per case): w = WordCount of the page with marked subtrees deleted; w >= 500 => result == result of the deleted page, else == result of the page with markers renamed to a neutral value (Title, Text, HTML, WordCount, ContentImages). Non-trivial = a marked subtree holds >= 20 words.",
 		Enumerate: c20Enumerate,
 		Check:     c20Check,
